@@ -73,3 +73,52 @@ pub fn ast_string(src: &str) -> Result<String, String> {
     let prog = incan_syntax::parser::parse(&toks).map_err(|e| format!("parseerr {}", e[0].message))?;
     Ok(erase_spans(&format!("{prog:?}")))
 }
+
+/// The formatter's documented docstring normalisation: surrounding whitespace of a docstring is not
+/// significant (`format_docstring` trims it). Applied to both sides before comparing ASTs for C08.
+pub fn normalize_docstrings(dbg: &str) -> String {
+    let mut out = String::with_capacity(dbg.len());
+    let mut rest = dbg;
+    loop {
+        let next = ["Docstring(\"", "docstring: Some(\""].iter().filter_map(|p| rest.find(p).map(|i| (i, p.len()))).min();
+        let Some((i, plen)) = next else {
+            out.push_str(rest);
+            return out;
+        };
+        out.push_str(&rest[..i + plen]);
+        rest = &rest[i + plen..];
+        // find the closing unescaped quote
+        let b = rest.as_bytes();
+        let mut j = 0;
+        while j < b.len() {
+            if b[j] == b'\\' {
+                j += 2;
+                continue;
+            }
+            if b[j] == b'"' {
+                break;
+            }
+            j += 1;
+        }
+        let j = j.min(rest.len());
+        let mut body = &rest[..j];
+        loop {
+            let t = body.trim_start_matches(' ');
+            let t = t.strip_prefix("\\n").or_else(|| t.strip_prefix("\\t")).or_else(|| t.strip_prefix("\\r")).unwrap_or(t);
+            if t.len() == body.len() {
+                break;
+            }
+            body = t;
+        }
+        loop {
+            let t = body.trim_end_matches(' ');
+            let t = t.strip_suffix("\\n").or_else(|| t.strip_suffix("\\t")).or_else(|| t.strip_suffix("\\r")).unwrap_or(t);
+            if t.len() == body.len() {
+                break;
+            }
+            body = t;
+        }
+        out.push_str(body);
+        rest = &rest[j..];
+    }
+}
